@@ -817,6 +817,8 @@ def str_object(s, where, depth, rng, as_array=False):
             type="reference")
     elif where == "char16":
         inner = CIMProperty(name, Char16(s), type="char16")
+    elif where == "name":
+        inner = CIMProperty(s, "v", type="string")
     else:
         raise ValueError(where)
     obj = inner
@@ -838,6 +840,8 @@ def dig_string(obj, where, depth):
         if isinstance(v, list):
             v = v[0]
         obj = list(v.properties.values())[0]
+    if where == "name":
+        return obj.name
     if where in ("value", "char16"):
         v = obj.value
         return v[0] if isinstance(v, list) else v
@@ -859,6 +863,10 @@ def outer_text(xml, where, depth):
         return _between(xml, "<KEYVALUE ", "</KEYVALUE>")
     if where == "host":
         return _between(xml, "<HOST>", "</HOST>")
+    if where == "name":
+        i = xml.find(' NAME="')
+        j = xml.find('"', i + 7)
+        return xml[i + 7:j] if 0 <= i < j else None
     return None
 
 
@@ -870,7 +878,8 @@ def run_str(spec, rng):
     where, depth, mode = spec["where"], spec["depth"], spec["mode"]
     # HOST and KEYVALUE are always written through _text() (entity escaping);
     # only VALUE goes through _pcdata_nodes()
-    emode = "entity" if depth == 0 and where in ("host", "keyvalue") else mode
+    emode = "entity" if depth == 0 and where in ("host", "keyvalue", "name") \
+        else mode
     ev = {"op": "str", "mode": emode, "depth": depth, "where": where,
           "s": classify(s), "srctok": stok(s), "enc": "ok", "parse": "",
           "gottok": "", "got": [], "text": [], "inner": [],
